@@ -29,7 +29,9 @@ RULE = (
     "the junk untouched; (3) rows permuted within tables, tables permuted within a sheet, sheets permuted give identical "
     "reports; (4) asset X alone (-a X, or a config listing only X) gives the same X sheets, the same X rows in shared sheets "
     "and the same X balances / costs as X among others; in-process: one engine object reused for the assets in different "
-    "orders gives each asset the trace of a fresh engine. Non-trivial = input with >= 2 assets whose sheets reuse row numbers; "
+    "orders gives each asset the trace of a fresh engine; in-process relation 3 at volume: row numbers permuted within the "
+    "tables of single-asset histories whose timestamps are distinct but down to 1 microsecond apart (all methods, schedules) "
+    "give the same fractions through the unique ids. Non-trivial = input with >= 2 assets whose sheets reuse row numbers; "
     "distinct = hash of (input, relation)"
 )
 ASSUMPTIONS = [
@@ -38,8 +40,8 @@ ASSUMPTIONS = [
     "reports are compared on cell values and formula text as read back by ezodf, not on bytes (ODS files embed nothing time-dependent that RP2 controls, but zip metadata may differ)",
 ]
 SETTINGS: Dict[str, Dict[str, Any]] = {
-    "quick": {"cases": 16, "inproc_cases": 300, "budget_s": 75, "minimums": {"relation_1": 12, "relation_2": 12, "relation_3": 12, "relation_4": 12, "inproc_engine_reuse": 200, "nontrivial": 12}},
-    "thorough": {"cases": 200, "inproc_cases": 8000, "budget_s": 600, "minimums": {"relation_1": 150, "relation_2": 150, "relation_3": 150, "relation_4": 150, "inproc_engine_reuse": 5000, "nontrivial": 150}},
+    "quick": {"cases": 16, "inproc_cases": 300, "inproc_perm_cases": 1600, "budget_s": 75, "minimums": {"relation_1": 12, "relation_2": 12, "relation_3": 12, "relation_4": 12, "inproc_engine_reuse": 200, "inproc_row_permutation": 1000, "inproc_row_permutation_with_sub_second_lots": 200, "nontrivial": 12}},
+    "thorough": {"cases": 200, "inproc_cases": 8000, "inproc_perm_cases": 60000, "budget_s": 600, "minimums": {"relation_1": 150, "relation_2": 150, "relation_3": 150, "relation_4": 150, "inproc_engine_reuse": 5000, "inproc_row_permutation": 30000, "inproc_row_permutation_with_sub_second_lots": 6000, "nontrivial": 150}},
 }
 REPORTS = COUNTRY_REPORTS["us"]
 
@@ -234,14 +236,67 @@ def _inproc(ctx: Any, ip: Any, index: int) -> None:
     ctx.count("inproc_engine_reuse")
 
 
+def _inproc_permutation(ctx: Any, ip: Any, index: int, hist: Optional[Dict[str, Any]] = None, sched: Optional[Dict[int, str]] = None, seeds: Optional[List[int]] = None) -> None:
+    """Relation 3 at volume: the same rows given other sheet positions (row numbers permuted within each table, which is all
+    the parser passes on of the sheet order) must give the same fractions, identified through the unique ids. Timestamps are
+    pairwise distinct, many of them less than a second (down to 1 microsecond) apart."""
+    from rpv.drive_inproc import trace_of
+    from rpv.gen import Profile, assign_rows, history
+    from rpv.oracle.balance import is_valid
+
+    rng = ctx.rng("inproc-perm", index)
+    if hist is None:
+        profile = Profile(max_events=rng.choice((8, 14, 20)), tie_prob=0.0, gap_style=rng.choice(("short", "short", "mixed")), mixed_tz=rng.random() < 0.4, p_earn=0.3, price_style=rng.choice(("equal", "small", "mixed")), n_exchanges=2)
+        hist = history(rng, profile)
+        if not is_valid(Model(hist)):
+            return
+        sched = {1970: rng.choice(METHODS)} if rng.random() < 0.7 else {1970: rng.choice(METHODS), 2019: rng.choice(METHODS), 2021: rng.choice(METHODS)}
+        seeds = [rng.randint(0, 10**9) for _ in range(2)]
+    assert sched is not None and seeds is not None
+    reference = None
+    for k, seed in enumerate([None] + list(seeds)):
+        variant = copy.deepcopy(hist)
+        if seed is not None:
+            prng = random.Random(seed)
+            for table in ("IN", "OUT", "INTRA"):
+                rows = [r for r in variant["rows"] if r["t"] == table]
+                numbers = [r["row"] for r in rows]
+                prng.shuffle(numbers)
+                for r, n in zip(rows, numbers):
+                    r["row"] = n
+        uid = {r["row"]: (r["t"], r["uid"]) for r in variant["rows"]}
+        res = ip.run(variant, sched)
+        ctx.count("executions")
+        if not res.ok:
+            outcome: Any = ("error", res.error_type)
+        else:
+            outcome = sorted((uid[f.event], uid.get(f.lot) if f.lot is not None else None, f.amount, f.proceeds, f.cost, f.gain, f.long) for f in trace_of(res.computed))
+        if reference is None:
+            reference = outcome
+            if not res.ok:
+                ctx.count("unobservable")
+                return
+        elif outcome != reference:
+            detail = {"permutation": k, "first": str(reference)[:200], "second": str(outcome)[:200]} if not isinstance(outcome, list) or not isinstance(reference, list) else {"permutation": k, "differing_fractions": len(set(map(str, outcome)) ^ set(map(str, reference)))}
+            ctx.violation("determinism.row-order-changes-fractions", detail, {"inproc_permutation": True, "hist": hist, "schedule": {str(y): m for y, m in sched.items()}, "seeds": seeds})
+    ctx.count("inproc_row_permutation")
+    gaps = sorted(Model(hist).lots[r].utc for r in Model(hist).lots)
+    if any((b - a).total_seconds() < 1 for a, b in zip(gaps, gaps[1:])):
+        ctx.count("inproc_row_permutation_with_sub_second_lots")
+
+
 def run_shard(ctx: Any) -> None:
     settings = SETTINGS[ctx.tier]
     ip = get_ip(ctx)
     share = ctx.share(settings["inproc_cases"])
     for i in range(share):
-        if (ctx.budget_s - ctx.time_left()) > ctx.budget_s * 0.2:
+        if (ctx.budget_s - ctx.time_left()) > ctx.budget_s * 0.15:
             break
         _inproc(ctx, ip, ctx.shard + i * ctx.nshards)
+    for i in range(ctx.share(settings["inproc_perm_cases"])):
+        if (ctx.budget_s - ctx.time_left()) > ctx.budget_s * 0.3:
+            break
+        _inproc_permutation(ctx, ip, ctx.shard + i * ctx.nshards)
     os.chdir(ctx.scratch)
     for i in range(ctx.share(settings["cases"])):
         if ctx.time_left() < 8:
@@ -251,6 +306,9 @@ def run_shard(ctx: Any) -> None:
 
 
 def replay(ctx: Any, case: Dict[str, Any]) -> None:
+    if case.get("inproc_permutation"):
+        _inproc_permutation(ctx, get_ip(ctx), 0, case["hist"], {int(k): v for k, v in case["schedule"].items()}, case["seeds"])
+        return
     if case.get("inproc"):
         from rpv.drive_inproc import trace_of
 
@@ -279,5 +337,7 @@ def coverage(merged: Dict[str, Any], tier: str) -> Dict[str, Any]:
             "inputs_checked_for_order_independence": c.get("relation_3", 0),
             "inputs_checked_for_asset_independence": c.get("relation_4", 0),
             "in_process_engine_reuse_cases": c.get("inproc_engine_reuse", 0),
+            "in_process_row_permutation_cases": c.get("inproc_row_permutation", 0),
+            "of_which_with_lots_less_than_a_second_apart": c.get("inproc_row_permutation_with_sub_second_lots", 0),
         },
     }
